@@ -101,7 +101,7 @@ def reflect_tables(ctx, S):
     return ok
 
 
-def compare_case(ctx, label, src, args, S, method, gt_cases, replay_extra=None):
+def compare_case(ctx, label, src, args, S, method, gt_cases, replay_extra=None, spec_method=None):
     """run one (kernel, args) on native reference and implementation; oracle immediately;
     queue the op list for the Coq model."""
     nat = tc.run_native(src, "main", args, S)
@@ -136,6 +136,30 @@ def compare_case(ctx, label, src, args, S, method, gt_cases, replay_extra=None):
         sig = {"kind": "trace-differs", "ops": [o[0] for o in ops][:12], "impl": impl_text[:200], "ref": ref_text[:200]}
         ctx.fail(sig, {"src": src, "args": repr(args), "expected": ref_text, "got": impl_text},
                  f"trace differs from the reference AOD model: expected {ref_text[:160]} got {impl_text[:160]}")
+    if spec_method is not None:
+        # the same kernel compiled with the spec (@tweezer(arch_spec=S)) and traced by a tracer that knows NO spec: same reference
+        from bloqade.shuttle.arch import ArchSpec
+        ctx.evaluations += 1
+        if isinstance(spec_method, Exception):
+            st2, text2 = "err", "ERR"
+        else:
+            st2, r2 = tc.run_impl(spec_method, args, ArchSpec())
+            try:
+                text2 = tc.path_text(tc.abstract_path(r2), gt) if st2 == "ok" else "ERR"
+            except Exception as e:
+                text2 = "?unrenderable " + str(e)
+        ctx.hist("compiled-with-spec route", "same as the reference" if text2 == ref_text else "DIFFERS")
+        if text2 != ref_text:
+            ctx.fail({"kind": "trace-differs", "route": "compiled with arch_spec, traced without a spec", "ops": [o[0] for o in ops][:12]},
+                     {"src": src, "args": repr(args), "expected": ref_text, "got": text2, "route": "arch_spec"},
+                     f"compiled with @tweezer(arch_spec=S) and traced without a spec, the trace differs from the reference AOD model: "
+                     f"expected {ref_text[:140]} got {text2[:140]}" + (f" ({spec_method})"[:120] if isinstance(spec_method, Exception) else ""))
+
+
+def spec_route_src(src):
+    """the entry kernel decorated with the spec; helper kernels stay as they are (the injection pass has to reach them)"""
+    k = src.rindex("@tweezer\ndef main(")
+    return src[:k] + "@tweezer(arch_spec=S)\ndef main(" + src[k + len("@tweezer\ndef main("):]
 
 
 def coq_eval_cases(ctx, name, cases):
@@ -297,8 +321,14 @@ def run(ctx):
             nfail_compile += 1
             ctx.hist("outcome", "rejected at definition: " + type(e).__name__)
             continue
+        sm = None
+        if "spec." in prog.src:
+            try:
+                sm = kernels.define(spec_route_src(prog.src), S=S)["main"]
+            except Exception as e:
+                sm = e
         for args in prog.arg_tuples:
-            compare_case(ctx, f"p{i}", prog.src, args, S, m, cases)
+            compare_case(ctx, f"p{i}", prog.src, args, S, m, cases, spec_method=sm)
         if i < 2:
             ctx.sample({"kernel": prog.src, "args": [repr(a) for a in prog.arg_tuples]})
     ctx.count("programs", nprog)
@@ -342,9 +372,17 @@ def replay(data):
     args = eval(inp["args"], {"slice": slice, "IList": ilist.IList, "True": True, "False": False})
     if isinstance(args, list):
         args = (ilist.IList(args),)
-    m = kernels.define(inp["src"])["main"]
     nat = tc.run_native(inp["src"], "main", args, S)
-    st, r = tc.run_impl(m, args, S)
+    if inp.get("route") == "arch_spec":
+        from bloqade.shuttle.arch import ArchSpec
+        try:
+            m = kernels.define(spec_route_src(inp["src"]), S=S)["main"]
+            st, r = tc.run_impl(m, args, ArchSpec())
+        except Exception as e:
+            st, r = "err", str(e)
+    else:
+        m = kernels.define(inp["src"])["main"]
+        st, r = tc.run_impl(m, args, S)
     gt = tc.GridTable()
     if nat[0] == "err":
         return st == "ok", "source evaluation raises; implementation " + st
